@@ -189,8 +189,8 @@ def r4_load(ctx):
     loads = ctx.prog.func(f'{N.PUBLIC}.loads')
     r1 = symex.returns(load)
     r2 = symex.returns(loads)
-    ok1 = len(r1) == 1 and src(r1[0][1]) == f'generic.Generic.read(path={load.params[0]}, strict=raise_on_errors)'
-    ok2 = len(r2) == 1 and src(r2[0][1]) == f'generic.Generic.create(content={loads.params[0]}, strict=raise_on_errors)'
+    ok1 = len(r1) == 1 and F.same(ctx, load, r1[0][1], f'generic.Generic.read(path={load.params[0]}, strict=raise_on_errors)')
+    ok2 = len(r2) == 1 and F.same(ctx, loads, r2[0][1], f'generic.Generic.create(content={loads.params[0]}, strict=raise_on_errors)')
     ctx.check(ok1, 'R4', load.loc, load.qualname, 'load-delegates', 'load = Generic.read(path, strict=raise_on_errors)')
     ctx.check(ok2, 'R4', loads.loc, loads.qualname, 'loads-delegates', 'loads = Generic.create(content, strict=raise_on_errors)')
     rd = ctx.prog.func(f'{N.GENERIC}.Generic.read')
